@@ -140,6 +140,10 @@ type Machine struct {
 	raceReported bool
 	selectFork   bool
 	eventMode    *eventRecorder
+	model        map[string]uint64
+	modelMemo    map[*Term]uint64
+	noModelGuide bool
+	decided      map[*Term]bool
 }
 
 type classDef struct {
@@ -207,9 +211,34 @@ func (fr *Frame) stack() string {
 
 // ---- path condition and decisions -------------------------------------------
 
+// modelEval evaluates c under a model of the current path condition.
+func (m *Machine) modelEval(c *Term) (bool, bool) {
+	if m.noModelGuide {
+		return false, false
+	}
+	if m.model == nil {
+		if m.solver.Check(m.ts) != Sat {
+			return false, false
+		}
+		m.model = m.modelNow()
+		m.modelMemo = map[*Term]uint64{}
+	}
+	// variables not yet declared to the solver are unconstrained: default 0
+	v, ok := c.evalDefault(m.model, m.modelMemo)
+	if !ok {
+		return false, false
+	}
+	return v == 1, true
+}
+
 func (m *Machine) assume(t *Term) {
 	if t.IsTrue() {
 		return
+	}
+	if m.model != nil {
+		if v, ok := t.evalDefault(m.model, m.modelMemo); !ok || v != 1 {
+			m.model = nil
+		}
 	}
 	m.pc = append(m.pc, t)
 	m.solver.Assert(m.ts, t)
@@ -228,6 +257,9 @@ func (m *Machine) decide(c *Term) bool {
 	if c.IsConst() {
 		return c.Val == 1
 	}
+	if v, ok := m.decided[c]; ok {
+		return v
+	}
 	m.res.Decisions++
 	m.res.Nontrivial = true
 	if m.pos < len(m.vec) {
@@ -238,15 +270,27 @@ func (m *Machine) decide(c *Term) bool {
 		} else {
 			m.assume(m.ts.Not(c))
 		}
+		m.remember(c, d == 1)
 		return d == 1
 	}
 	nc := m.ts.Not(c)
-	rt := m.check(c)
-	var rf SatResult
-	if rt == Unsat {
-		rf = Sat
+	var rt, rf SatResult
+	// model-guided: the side the current model satisfies is feasible without a query
+	if mv, ok := m.modelEval(c); ok {
+		if mv {
+			rt = Sat
+			rf = m.check(nc)
+		} else {
+			rf = Sat
+			rt = m.check(c)
+		}
 	} else {
-		rf = m.check(nc)
+		rt = m.check(c)
+		if rt == Unsat {
+			rf = Sat
+		} else {
+			rf = m.check(nc)
+		}
 	}
 	if rt == Unknown {
 		m.res.Inconclusive = append(m.res.Inconclusive, "branch feasibility unknown at "+m.cur.fr.where())
@@ -259,7 +303,14 @@ func (m *Machine) decide(c *Term) bool {
 	}
 	take := rt != Unsat
 	if rt != Unsat && rf != Unsat {
-		alt := append(append([]int64{}, m.vec[:m.pos]...), 0)
+		if mv, ok := m.modelEval(c); ok && !mv {
+			take = false
+		}
+		altv := int64(0)
+		if !take {
+			altv = 1
+		}
+		alt := append(append([]int64{}, m.vec[:m.pos]...), altv)
 		m.newVecs = append(m.newVecs, alt)
 	}
 	d := int64(0)
@@ -273,7 +324,16 @@ func (m *Machine) decide(c *Term) bool {
 	} else {
 		m.assume(nc)
 	}
+	m.remember(c, take)
 	return take
+}
+
+func (m *Machine) remember(c *Term, v bool) {
+	if m.decided == nil {
+		m.decided = map[*Term]bool{}
+	}
+	m.decided[c] = v
+	m.decided[m.ts.Not(c)] = !v
 }
 
 // decideN is an n-way non-deterministic choice (all alternatives explored).
@@ -909,14 +969,14 @@ func (th *Thread) visit(fr *Frame, instr ssa.Instruction) continuation {
 		x := fr.get(instr.X)
 		switch x := x.(type) {
 		case Slice:
-			i := th.index(fr.get(instr.Index), len(x))
+			i := th.index(fr.get(instr.Index), len(x), instr.Index.Type())
 			fr.env[instr] = &x[i]
 		case *Value:
 			if x == nil {
 				th.rtPanic("invalid memory address or nil pointer dereference")
 			}
 			a := (*x).(Array)
-			i := th.index(fr.get(instr.Index), len(a))
+			i := th.index(fr.get(instr.Index), len(a), instr.Index.Type())
 			fr.env[instr] = &a[i]
 		default:
 			m.unsupported(fmt.Sprintf("IndexAddr on %T", x))
@@ -925,11 +985,11 @@ func (th *Thread) visit(fr *Frame, instr ssa.Instruction) continuation {
 		x := fr.get(instr.X)
 		switch x := x.(type) {
 		case Array:
-			i := th.index(fr.get(instr.Index), len(x))
+			i := th.index(fr.get(instr.Index), len(x), instr.Index.Type())
 			fr.env[instr] = copyVal(x[i])
 		case Str:
 			bs := m.strBytes(x)
-			i := th.index(fr.get(instr.Index), len(bs))
+			i := th.index(fr.get(instr.Index), len(bs), instr.Index.Type())
 			fr.env[instr] = bs[i]
 		default:
 			m.unsupported(fmt.Sprintf("Index on %T", x))
@@ -980,15 +1040,16 @@ func (m *Machine) describePanic(v Value) string {
 }
 
 // index checks bounds and returns a concrete index.
-func (th *Thread) index(iv Value, n int) int {
+func (th *Thread) index(iv Value, n int, T types.Type) int {
 	t := iv.(*Term)
+	k, _ := scalarOf(T)
+	if !k.signed && t.W < 64 {
+		t = th.m.ts.ZExt(t, 64)
+	}
 	if !t.IsConst() {
 		// bounds check as a fork, then case split
 		m := th.m
-		in := m.ts.Cmp(OpULt, m.ts.ZExt(t, 64), m.ts.Const(64, uint64(n)))
-		if t.W < 64 {
-			in = m.ts.Cmp(OpULt, m.ts.SExt(t, 64), m.ts.Const(64, uint64(n)))
-		}
+		in := m.ts.Cmp(OpULt, m.ts.SExt(t, 64), m.ts.Const(64, uint64(n)))
 		if !m.decide(in) {
 			th.rtPanic(fmt.Sprintf("index out of range [symbolic] with length %d", n))
 		}
@@ -1212,7 +1273,7 @@ func (th *Thread) lookup(instr *ssa.Lookup, x, idx Value) Value {
 		return v
 	case Str:
 		bs := m.strBytes(x)
-		i := th.index(idx, len(bs))
+		i := th.index(idx, len(bs), instr.Index.Type())
 		return bs[i]
 	}
 	m.unsupported(fmt.Sprintf("lookup on %T", x))
